@@ -405,6 +405,14 @@ def _gen_musig(n, with_root):
             if t < 2 * n:
                 d["k%d%d" % (t // 2 + 1, t % 2 + 1)] = (N - 1, 1, N - 2, N - 1)[t % 4]
             yield d
+            # two (or all) participants announcing the SAME nonce pair is legal (nonces are chosen independently in
+            # [1, n-1]); a nonce aggregation that merges equal announcements loses a contribution (seed C13-E)
+            if t in (0, 3):
+                e = dict(d)
+                who = range(2, n + 1) if t == 0 else (n,)
+                for i in who:
+                    e["k%d1" % i], e["k%d2" % i] = e["k11"], e["k12"]
+                yield e
     return gen
 
 
@@ -457,6 +465,43 @@ for _n in (2, 3):
                      # with a wall budget the solver returns models that do not replay), so the 3-signer SESSION is a
                      # run-time contract only; 3-signer key aggregation is proved above
                      tiers=("thorough",) if _n == 2 else ("runtime-only",))
+
+
+# nonce secrets that CANCEL in one slot (sum = 0 mod n, so that nonce sum is the point at infinity): every nonce is in
+# [1, n-1], the property's quantifier; reported by the C13-E sub-agent as failing on the unchanged tree (AttributeError in
+# compute_coefficient), repaired by a fix: commit (see KNOWN_FINDINGS.jsonl).  Run-time contracts: the symbolic session
+# contracts above keep the finite-sums precondition.
+def _gen_musig_cancel(n, with_root):
+    def gen(rng, tier):
+        base = _gen_musig(n, with_root)(rng, tier)
+        for t, d in enumerate(base):
+            slot = 1 + t % 2
+            others = sum(d["k%d%d" % (i, slot)] for i in range(1, n)) % N
+            if others == 0:
+                continue
+            d["k%d%d" % (n, slot)] = N - others
+            if t % 4 >= 2 and n >= 2:                 # smallest example: k and n - k
+                for i in range(1, n):
+                    d["k%d%d" % (i, slot)] = 5 + i
+                d["k%d%d" % (n, slot)] = N - sum(5 + i for i in range(1, n))
+            yield d
+    return gen
+
+
+for _n in (2, 3):
+    _p = {"d%d" % i: SEC for i in range(1, _n + 1)}
+    for i in range(1, _n + 1):
+        _p["k%d1" % i] = SEC
+        _p["k%d2" % i] = SEC
+    _p["msg"] = H32
+    for _sfx, _kind in (("plain", ("const", b"")), ("root", H32)):
+        _p2 = dict(_p, root=_kind)
+        contract(H + "musig_flow%d#cancelling-nonces-%s" % (_n, _sfx), props=("C13",), params=_p2,
+                 requires=["spec.taproot.musig_defined_cancelling(%s, %s, msg, root)" % (_ds(_n), _ks(_n))],
+                 ensures=["returns()",
+                          "result[0] == spec.taproot.x32(spec.taproot.musig_session_key(%s, root))" % _ds(_n),
+                          "spec.schnorr.verify(result[0], msg, result[1]) is True"],
+                 gen=_gen_musig_cancel(_n, _sfx == "root"), tiers=("runtime-only",))
 
 
 # history contract (added after seeded change C13-C: external key and challenge memoised per (nonce point, message) on the
